@@ -241,6 +241,20 @@ claim("C09",
       "The statistical clause (reproduces the target's moments) is not decidable by this technique and not claimed.",
       "TLA+ design models checked by TLC + trace validation with TLC-inferred accept/reject", "5/C09")
 
+claim("C08",
+      "For every prior DAG with <=3 parameters and <=2 distribution arguments, and for 4-parameter DAGs with <=1 argument in any name order "
+      "or <=2 arguments topologically named (arguments constants or other parameters), and every requested order of every parent-closed "
+      "subset, TLC checks on ModelPrior.tla (built on CompileOps of C03) that ModelPrior's augment / compile / load / override / execute "
+      "evaluates to the fold of the conditional (log-)densities at the query columns and runs only the pdf nodes, plus the shape table and the "
+      "central-difference = derivative lemma on piecewise-linear log densities; refuted controls incl. the subset defect F8 (repaired).  "
+      "1.4k (quick) / 14k (thorough) real ModelPrior objects (TLC-emitted and random DAGs, exact fake distributions with integer-polynomial "
+      "densities + scipy.stats.uniform) have pdf / logpdf / gradient_logpdf / rvs validated by TLC against the exact rational product / log "
+      "sum / derivative / shape / positivity recomputed from the DAG and the query points (ModelPrior_Trace.tla).",
+      "Trusted: scipy.stats.uniform; exact sub-domain: quarter-lattice points, integer fake arguments, power-of-two uniform scales.  Not "
+      "decided: smooth-density gradients and stencils touching kinks or boundaries; invalid distribution parameters (nan); subsets not closed "
+      "under parameter-parents; duplicate parents (F20); other scipy densities.",
+      "TLA+ design model checked by TLC + TLC-emitted DAGs + TLC trace validation with exact fake distributions", "5/C08")
+
 ALL = ["C%02d" % i for i in range(1, 21)]
 
 
